@@ -169,7 +169,7 @@ func (c *Ctx) kindFact(cond ssa.Value, pos bool) (subject string, kinds []int64,
 		// substitute the callee's parameters by the call's arguments
 		for i := range cal.Params {
 			if i < len(x.Call.Args) {
-				s = strings.ReplaceAll(s, fmt.Sprintf("P%d", i), "\x00"+fmt.Sprint(i)+"\x00")
+				s = strings.ReplaceAll(s, c.pname(cal, i), "\x00"+fmt.Sprint(i)+"\x00")
 			}
 		}
 		for i := range cal.Params {
@@ -847,7 +847,7 @@ func (c *Ctx) kindFromCallers(fn *ssa.Function, subj string, allowed []reflect.K
 		args := cs.Call.Common().Args
 		s := subj
 		for i := range fn.Params {
-			s = strings.ReplaceAll(s, fmt.Sprintf("P%d", i), "\x00"+fmt.Sprint(i)+"\x00")
+			s = strings.ReplaceAll(s, c.pname(fn, i), "\x00"+fmt.Sprint(i)+"\x00")
 		}
 		for i := range fn.Params {
 			if i < len(args) {
